@@ -382,6 +382,9 @@ func gitExec(c *Ctx, op string) {
 		if berr == nil && bpan == "" {
 			if sn, e := Snapshot(dB); e == nil {
 				for _, e := range sn {
+					if e.Name == "" {
+						continue // (the conjured root has the default directory's owner, not the entries')
+					}
 					if e.Uid != 1000 || e.Gid != 1000 {
 						c.PropFail("git-cache-poisoned-by-filter", fmt.Sprintf("after an earlier unpack of the same commit with uid=7,gid=8 through the cache, a lossless unpack shows %q owned by %d:%d instead of 1000:1000", e.Name, e.Uid, e.Gid), op)
 						break
